@@ -524,3 +524,103 @@ def real_step(mk, L, cyclic, order, imag=False):
             mk.eq("state after one step == product formula applied to the initial state", vt, v)
     finally:
         _uninstall_expm(rec)
+
+
+# ---------------------------------------------------------------------- (d) arbitrary-geometry sweeps (TEBDSweepMixin)
+
+_GEN_EDGES = {"chain": [(0, 1), (1, 2)], "tri": [(0, 1), (1, 2), (0, 2)], "star": [(0, 1), (1, 2), (1, 3)]}
+_GEN_ORD = ("sort", "random", "random-ungrouped", "tuple", "list", "callable", "none")
+_GSW = [{"geom": g, "ordering": o, "reflect": r,
+         "_tiers": ("quick", "thorough") if (g == "tri" or (g == "chain" and o in ("sort", "list"))) else ("thorough",)}
+        for g in _GEN_EDGES for o in _GEN_ORD for r in (False, True)]
+
+
+@obligation(PROP, params=_GSW, rounds=2, timeout_s=300, numeric=True)
+def gen_sweeps(mk, geom, ordering, reflect):
+    """TEBDGen (TEBDSweepMixin.sweep / evolve) over three successive sweeps: every sweep applies exactly one exponential per
+    term, in the requested ordering (followed by its mirror image with halved steps when second_order_reflect), each gate
+    being exp(-tau/factor * term); the state equals that product applied to the initial state.  The symbolic run replaces the
+    documented extension point ``gate`` by a recorder (tau and the terms symbolic, exponentials uninterpreted); the numeric run
+    gates the real network (no truncation) and compares dense states"""
+    mk.encodes(tg.TEBDSweepMixin.sweep, tg.TEBDSweepMixin.evolve, tg.TEBDSweepMixin.setup_sweep_opts, tg.LocalHamGen.get_gate_expm,
+               tg.LocalHamGen.get_auto_ordering)
+    edges = _GEN_EDGES[geom]
+    n = 1 + max(max(e) for e in edges)
+    H2 = {e: mk.array(f"H2_{e[0]}{e[1]}", (d * d, d * d), "real") for e in edges}
+    ham = qtn.LocalHamGen(H2)
+    ts = []
+    for i in range(n):
+        inds = [f"b{min(e)}{max(e)}" for e in edges if i in e] + [f"k{i}"]
+        arr = mk.array(f"N{i}", (2,) * len(inds), "real") if not mk.sym else np.ones((2,) * len(inds))
+        ts.append(qtn.Tensor(arr, inds, tags=[f"I{i}"]))
+    psi = qtn.TensorNetwork(ts).view_as_(qtn.TensorNetworkGenVector, site_tag_id="I{}", site_ind_id="k{}", sites=range(n))
+    sinds = tuple(f"k{i}" for i in range(n))
+    # (evolve formats float(tau) for its progress description: tau is a concrete dyadic rational in the symbolic run)
+    tau = 0.125 if mk.sym else 0.125 + 0.25 * float(mk.scalar("tau", "real")) ** 2
+    given = {"tuple": tuple(reversed(edges)), "list": [tuple(reversed(e)) for e in edges], "callable": (lambda: list(edges)), "none": None}.get(ordering, ordering)
+    given0 = list(given) if isinstance(given, (list, tuple)) else None
+    rec = _install_expm(mk)
+    log = []
+    try:
+        # (contract=True: gates are contracted into the site tensors - exact and cheap on loops, where split bonds double per gate)
+        tb = qtn.TEBDGen(psi, ham, tau=0.5, D=16, cutoff=0.0, gate_opts={"contract": True}, ordering=given, second_order_reflect=reflect,
+                         compute_energy_final=False, progbar=False)
+        if ordering in ("sort", "random", "random-ungrouped"):
+            stored = tb.ordering() if callable(tb.ordering) else tb.ordering
+            expect = [tuple(w) for w in stored]            # fixed when the option is set
+        elif ordering == "callable":
+            expect = [tuple(e) for e in edges]
+        elif ordering == "none":
+            expect = None                                  # documented: a fresh random sequential order every sweep
+        else:
+            expect = [tuple(w) for w in given0]
+        real_gate = tb.gate
+
+        def gate(G, where):
+            log.append((tuple(where), G, tb.last_tau))
+            if not mk.sym:
+                real_gate(G, where)
+
+        tb.gate = gate
+        v0 = None if mk.sym else np.asarray(ref.tn_dense(psi, sinds)).reshape(-1)
+        factor = 2 if reflect else 1
+        pos = 0
+        for k in range(3):
+            tb.evolve(1, tau=tau)
+            seg = log[pos:]
+            pos = len(log)
+            ws = [w for w, _, _ in seg]
+            if reflect:
+                half = len(ws) // 2
+                mk.same(f"sweep {k}: second half is the mirror image of the first", ws[half:], list(reversed(ws[:half])))
+                first = ws[:half]
+            else:
+                first = ws
+            if expect is None:
+                mk.same(f"sweep {k}: one gate per term (some order)", sorted(tuple(sorted(w)) for w in first), sorted(edges))
+            else:
+                mk.same(f"sweep {k}: one gate per term in the requested ordering", first, expect)
+            for j, (w, G, lt) in enumerate(seg):
+                gen = ham.get_gate(w)
+                if mk.sym:
+                    A = rec["args"].get(id(G))
+                    mk.same(f"sweep {k} gate {j} on {w}: is an exponential handed out by expm", A is not None, True)
+                    if A is not None:
+                        mk.eq(f"sweep {k} gate {j} on {w}: generator == -(tau/{factor}) * term{w}", A, gen * P.lift(-tau / factor))
+                else:
+                    import scipy.linalg as sla
+                    mk.eq(f"sweep {k} gate {j} on {w}: G == expm(-(tau/{factor}) * term{w})", np.asarray(G).reshape(4, 4),
+                          sla.expm(np.asarray(gen, dtype=float) * (-tau / factor)))
+        mk.same("number of sweeps counted", tb.n, 3)
+        if given0 is not None:
+            mk.same("the caller's ordering object is not modified", list(given), given0)
+        if not mk.sym:
+            import scipy.linalg as sla
+            v = v0
+            for w, G, lt in log:
+                v = ref.matmul(ref.embed(sla.expm(np.asarray(ham.get_gate(w), dtype=float) * (-tau / factor)), [2] * n, w), v)
+            out = tb.state
+            mk.eq("state after three sweeps == product of the exponentials applied to the initial state",
+                  np.asarray(ref.tn_dense(out, sinds)).reshape(-1), v)
+    finally:
+        _uninstall_expm(rec)
